@@ -463,9 +463,9 @@ pub open spec fn declares(d: Declaration) -> bool { d is Function || d is Functi
 pub open spec fn declared_name(d: Declaration) -> Identifier { if d is Function { d->Function_name } else { d->FunctionHead_name } }
 pub open spec fn declared_parameters(d: Declaration) -> Seq<Parameter> { if d is Function { d->Function_parameters@ } else { d->FunctionHead_parameters@ } }
 pub open spec fn declared_as(fns0: Fns, fns1: Fns, name: Identifier, parameters: Seq<Parameter>) -> bool {
-	&&& fns1.dom() == fns0.dom().insert(name.resolution_id)
+	&&& fns1.dom() =~= fns0.dom().insert(name.resolution_id)
 	&&& fns1[name.resolution_id].identifier == name
-	&&& fns1[name.resolution_id].parameters@ == parameters
+	&&& fns1[name.resolution_id].parameters@ =~= parameters
 	&&& forall|k: u32| k != name.resolution_id && fns0.contains_key(k) ==> #[trigger] fns1[k] == fns0[k]
 }
 
